@@ -164,6 +164,38 @@ def _eq_facts(cfg, res, node):
     return out
 
 
+REGISTRY_MAPS = ("unit_to_unit_info", "quantity_types", "categories_to_quantity_types")
+
+
+def _norm_get(t):
+    """`<registry map>.get(k)` read as the entry `<registry map>[k]` (whether it is None is decided by facts)."""
+    if not isinstance(t, tuple) or not t:
+        return t
+    t = tuple(_norm_get(x) if isinstance(x, tuple) else x for x in t)
+    if t[0] == "call" and len(t) == 4 and isinstance(t[1], tuple) and t[1] and t[1][0] == "attr" and t[1][2] == "get" and len(t[2]) == 1 and not t[3] \
+            and any(_is_field(t[1][1], f_) for f_ in REGISTRY_MAPS):
+        return ("sub", t[1][1], t[2][0])
+    return t
+
+
+class _GetAsEntry:
+    """A Resolver whose terms read `.get(k)` of the registry maps as entries."""
+
+    def __init__(self, res):
+        self._res = res
+
+    def term(self, *a, **kw):
+        return _norm_get(self._res.term(*a, **kw))
+
+    def origins(self, e):
+        out = [(st, _norm_get(t)) for st, t in self._res.origins(e)]
+        self.origin_chains = self._res.origin_chains
+        return out
+
+    def __getattr__(self, name):
+        return getattr(self._res, name)
+
+
 def _getinfo_helper(m, fn, alt):
     """A call of a lookup helper (nested def or method of the same class) -> (helper Func, {param name: arg term})."""
     if alt[0] != "call":
@@ -188,7 +220,7 @@ def _helper_facts(m, g, rep=None):
     quantity-type equality fact.  Returns (ok, name of the unit parameter, name of the quantity-type
     parameter or None when it reads the enclosing function's variable)."""
     hcfg = CFG(g.node)
-    hres = Resolver(m, g)
+    hres = _GetAsEntry(Resolver(m, g))
     ok = True
     unit_p = None
     qt_p = None
@@ -225,7 +257,7 @@ def r2_getinfo(rep, ctx):
     fn = m.method("UnitDatabase", "GetInfo")
     n = 0
     cfg = CFG(fn.node)
-    res = Resolver(m, fn, inline=False)
+    res = _GetAsEntry(Resolver(m, fn, inline=False))
     unit_i = fn.params.index("unit")
     helpers_seen = {}
     for r in cfg.returns():
@@ -377,22 +409,30 @@ def r3_check_category_unit(rep, ctx):
     P_CAT, P_UNIT = ("param", fn.params.index("category"), "category"), ("param", fn.params.index("unit"), "unit")
     KEY = ("tuple", (P_CAT, P_UNIT))
 
+    def memo_key(t):
+        """the key under which term t reads the verdict memo (`memo[k]` or `memo.get(k)`), else None"""
+        if t[0] == "sub" and _is_field(t[1], "_category_unit_valid"):
+            return t[2]
+        if t[0] == "call" and t[1][0] == "attr" and t[1][2] == "get" and _is_field(t[1][1], "_category_unit_valid") and len(t[2]) == 1 and not t[3]:
+            return t[2][0]
+        return None
+
     def memo_read(t):
-        return t[0] == "sub" and _is_field(t[1], "_category_unit_valid")
+        return memo_key(t) is not None
 
     def is_bool(t):
         return t[0] == "const" and isinstance(t[1], bool)
 
     def is_verdict(t):
         alts = alternatives(t)
-        return bool(alts) and all((memo_read(a_) and a_[2] == KEY) or is_bool(a_) for a_ in alts) and (len(alts) > 1 or memo_read(alts[0]))
+        return bool(alts) and all((memo_read(a_) and memo_key(a_) == KEY) or is_bool(a_) for a_ in alts) and (len(alts) > 1 or memo_read(alts[0]))
 
     verdict_edges = set()
     for nid in cfg.nodes("test"):
         e = cfg.ast[nid]
         t = res.term(e)
-        if memo_read(t) and t[2] != KEY:
-            rep.bad("C05.R3", "CheckCategoryUnit:memo-key", "the memo is read under %s instead of (category, unit)" % show(t[2]), node=e, fn=fn)
+        if memo_read(t) and memo_key(t) != KEY:
+            rep.bad("C05.R3", "CheckCategoryUnit:memo-key", "the memo is read under %s instead of (category, unit)" % show(memo_key(t)), node=e, fn=fn)
         if is_verdict(t):
             verdict_edges |= {(nid, b_, lab) for (b_, lab) in cfg.succ[nid] if lab == "T"}
     r = cfg.reach(cfg.ENTRY, avoid_edges=verdict_edges)
